@@ -14,6 +14,9 @@ Helper lemmas: `NumqiProofs/Qec*.lean`.  Error-set theorems: `NumqiProps/C19Erro
 import NumqiProofs.QecKL
 import NumqiProofs.QecErrorList
 import NumqiProofs.QecParseval
+import NumqiProofs.QecEnumOrder
+import NumqiProofs.QecBridge
+import NumqiProofs.QecLoss
 import NumqiModel.Generated.QecCircuits
 import Mathlib.Data.Complex.Basic
 
@@ -99,6 +102,63 @@ theorem weight_enumerator_sum_rules {I : R} (hI : I * I = -1) (hs : star I = -I)
     exact hc.1.2
   exact enumerator_sum_rules hI h2 c.n hn c.K (2 ^ countH c.encode) (fun a => codeword I c a)
     (fun a ha b hb => codeword_ortho hI hs h2 c hc a b ha hb)
+
+attribute [local instance] starConj
+
+/-- **What the model of `quantum_weight_enumerator` returns, entry by entry**: `retA[w]·K²` and `retB[w]·K`
+are the sums, over the Pauli strings of weight exactly `w + 1`, of `|Σ_a⟨c_a|σ|c_a⟩|²` resp. `Σ_ab|⟨c_a|σ|c_b⟩|²`
+(`enumTerm`), for any list of vectors. -/
+theorem weight_enumerator_by_weight (I : R) (n : Nat) (cw : List (Nat → R)) (w : Nat) :
+    (enumLevel I n cw w).1
+        = ∑ s ∈ (allSyms n).toFinset.filter (fun s => symWeight s = w + 1), (enumTerm I n cw (MP.ofSyms s)).1
+    ∧ (enumLevel I n cw w).2
+        = ∑ s ∈ (allSyms n).toFinset.filter (fun s => symWeight s = w + 1), (enumTerm I n cw (MP.ofSyms s)).2 :=
+  enumLevel_eq_strings I n cw w
+
+/-- **Sum rules for the returned arrays**, code words of a shape-correct code (`N = 2^h`): adding the weight-0
+terms `A'_0 = (K·2^h)²`, `B'_0 = K·4^h` that the implementation leaves out,
+`Σ_w retA'[w] + A'_0 = 2^n K 4^h` and `Σ_w retB'[w] + B'_0 = 2^n K² 4^h`; after the division by `K²` resp. `K`
+(and by `4^h` for the scaling): `A_0 = B_0 = 1`, `Σ_{j=1..n} A_j = 2^n/K - 1`, `Σ_{j=1..n} B_j = 2^n K - 1`. -/
+theorem weight_enumerator_arrays_sum_rules {I : R} (hI : I * I = -1) (hs : star I = -I)
+    (h2 : ∀ a b : R, 2 * a = 2 * b → a = b) (c : Code) (hc : shapeCheck c = true) :
+    let cw := (List.range c.K).map (fun a => codeword I c a)
+    sumL ((weightEnum I c.n cw).map (·.1)) + (enumTerm I c.n cw MP.one).1
+        = 2 ^ c.n * (c.K * (2 ^ countH c.encode * 2 ^ countH c.encode))
+    ∧ sumL ((weightEnum I c.n cw).map (·.2)) + (enumTerm I c.n cw MP.one).2
+        = 2 ^ c.n * (c.K * c.K * (2 ^ countH c.encode * 2 ^ countH c.encode))
+    ∧ enumTerm I c.n cw MP.one
+        = (star ((c.K : R) * 2 ^ countH c.encode) * (c.K * 2 ^ countH c.encode),
+           c.K * (star ((2 : R) ^ countH c.encode) * 2 ^ countH c.encode)) := by
+  have hn : c.n ≤ 32 := by
+    simp only [shapeCheck, Bool.and_eq_true, decide_eq_true_eq] at hc
+    exact hc.1.2
+  exact weightEnum_sum_rules hI hs h2 c.n hn c.K (2 ^ countH c.encode) (fun a => codeword I c a)
+    (fun a ha b hb => codeword_ortho hI hs h2 c hc a b ha hb)
+
+/-- **`0 ≤ A_j ≤ B_j`** for every returned entry (over ℂ, any `K` vectors; Cauchy–Schwarz):
+`retA'[w]`, `retB'[w]` are non-negative reals and `retA'[w] ≤ K·retB'[w]`, i.e. `A_{w+1} = retA'/K² ≤ retB'/K = B_{w+1}`. -/
+theorem weight_enumerator_order (n K : Nat) (c : Nat → Nat → ℂ) (w : Nat) :
+    NonnegReal (enumLevel Complex.I n ((List.range K).map c) w).1
+    ∧ NonnegReal (enumLevel Complex.I n ((List.range K).map c) w).2
+    ∧ (enumLevel Complex.I n ((List.range K).map c) w).1.re ≤ K * (enumLevel Complex.I n ((List.range K).map c) w).2.re :=
+  weightEnum_order n K c w
+
+omit [StarRing R] in
+/-- **C19's Pauli action is C08's matrix**: for masks below `2^n`, `pauliAct I p v` at the position of the basis
+state `b'` is `Σ_b mat I (toPauli n p) b' b · v(pos b)`, with `C08.mat` the matrix of `i^k X^x Z^z` whose
+product / inverse / commutation laws are proved in `NumqiProps/C08.lean`. -/
+theorem pauliAct_is_C08_matrix {I : R} (hI : I * I = -1) {n : Nat} (hn : n ≤ 32) (p : MP) (hx : p.x < 2 ^ n)
+    (v : Nat → R) (b' : Bits n) :
+    pauliAct I p v (posOf b') = (Matrix.mulVec (C08.mat I (toPauli n p)) (fun b => v (posOf b))) b' :=
+  pauliAct_eq_mat hI hn p hx v b'
+
+omit [StarRing R] in
+/-- **`knill_laflamme_loss(M,'L2') = 0` iff the Knill–Laflamme conditions hold on the entries it uses**
+(strict upper triangle zero, diagonal constant), for every array of Gaussian rationals. -/
+theorem knill_laflamme_loss_zero_iff (E K : Nat) (M : Nat → Nat → Nat → QI) :
+    klLossL2 E K M = 0 ↔
+      ∀ e < E, (∀ a < K, ∀ b < K, a < b → M e a b = 0) ∧ (∀ a < K, M e a a = klMean K M e) :=
+  klLossL2_eq_zero_iff E K M
 
 omit [StarRing R] in
 /-- **Listed stabilizers fix every code word**, sign `+1` included. -/
